@@ -17,6 +17,11 @@ def main():
             print("  -", l)
         sys.exit(1)
     mod = importlib.import_module(f"props.{pid.lower()}")
+    if payload.get("history") is not None:
+        # the failure was found after a "previous life" of the process: re-create it first (deterministic in the seed)
+        import history
+        n = history.disturb(int(payload["history"]), pid)
+        print(f"(previous life re-created: {n} library calls, seed {payload['history']})", file=sys.stderr)
     res = mod.replay(payload["probe"], payload["args"])
     print(json.dumps({"property": pid, "key": payload["key"], "result": res}, indent=1, default=str))
     sys.exit(0 if res.get("ok") else 1)
